@@ -1,93 +1,96 @@
 (* C18 property theorems (statements only; proofs are in Proofs.v).
-   The machine of C18/Model.v: SearchManager.requests, Timer objects (task handle, cancellation,
-   done-callbacks) and the ticket generator whose step is GENERATED from utils.ticket_generator
-   (SlskGen.TicketGen).  `run init evs` ranges over all histories of API calls, replies, task
-   steps, done-callbacks and time passing, i.e. over all schedules.  `new_obs s e` are the
-   observations the step e adds in state s.  nowrap evs: fewer tickets drawn than the generator's
-   period, so that a request is identified by its ticket. *)
+   The machine of C18/Model.v is the REPAIRED code: remove_request cancels the request's timer, the
+   timeout handler ignores a request that is no longer registered, and Timer._unset_task only clears
+   the handle when it still refers to the finished task.  The ticket step is GENERATED from
+   utils.ticket_generator (SlskGen.TicketGen).  `run init evs` ranges over all histories of API calls,
+   replies, task steps, done-callbacks and time passing, i.e. over all schedules; `new_obs s e` are the
+   observations step e adds in state s; nowrap evs: fewer tickets drawn than the generator's period. *)
 From Slsk Require Import Base.Tac.
 From SlskGen Require Import TicketGen.
 From Slsk Require Import C18.Model C18.Proofs.
 Open Scope Z_scope.
 
-(* A result is reported (and stored) by a step iff the step is the arrival of a reply whose ticket
-   is live according to the observable history: sent, and since then neither reported removed nor
-   removed by the user. *)
+(* A result is reported (and stored) by a step iff the step is the arrival of a reply whose ticket is
+   live according to the observable history. *)
 Theorem C18_result_iff_live_ticket : forall evs e tk id,
   In (OResult tk id) (new_obs (run init evs) e) <->
   (e = Reply tk id /\ live_in_log tk (log (run init evs)) = true).
 Proof. exact result_iff_live_ticket. Qed.
 
-(* the registry is exactly the set of live tickets of the observable history *)
 Theorem C18_requests_are_live : forall evs tk, memz tk (requests (run init evs)) = live_in_log tk (log (run init evs)).
 Proof. exact requests_live. Qed.
 
-(* Ticket generator (generated step): closed form; any two of fewer than 2^32-1 consecutive issues differ *)
+(* Ticket generator (generated step) *)
 Theorem C18_ticket_closed_form : forall n, nth_ticket n = Z.of_nat n mod 4294967295 + 1.
 Proof. exact ticket_closed_form. Qed.
 Theorem C18_tickets_distinct : forall i j : nat, (i < j)%nat -> Z.of_nat j - Z.of_nat i < 4294967295 -> nth_ticket i <> nth_ticket j.
 Proof. exact tickets_distinct. Qed.
 Theorem C18_tickets_range : forall n, 1 <= nth_ticket n <= 4294967295.
 Proof. exact tickets_range. Qed.
-(* in the machine: no ticket is sent twice before the generator wraps, so live requests have distinct tickets *)
 Theorem C18_sent_tickets_distinct : forall evs, nowrap evs -> NoDup (sent_tickets (log (run init evs))).
 Proof. exact sent_tickets_distinct. Qed.
 
-(* Timeout: a timer that the user never re-armed fires at most once, whatever the schedule ... *)
+(* Timeout: at most once, not before ... *)
 Theorem C18_timeout_at_most_once : forall evs e tk o, nowrap (evs ++ [e]) -> no_resched tk evs ->
   In o (new_obs (run init evs) e) -> fires_for tk o = true ->
   forall o', In o' (log (run init evs)) -> fires_for tk o' = false.
 Proof. exact timeout_at_most_once. Qed.
-(* ... and not before the time of registration plus the timeout (and only for requests that have one) *)
 Theorem C18_timeout_not_before : forall evs e tk o, nowrap (evs ++ [e]) -> no_resched tk evs ->
   In o (new_obs (run init evs) e) -> fires_for tk o = true ->
   exists t0 tau, In (OSent tk t0 tau) (log (run init evs)) /\ tau <> 0 /\ t0 + Z.max tau 0 <= now (run init evs) /\
-                 (o = ORemoved tk (now (run init evs)) \/ o = OErrKey tk (now (run init evs))).
+                 o = ORemoved tk (now (run init evs)).
 Proof. exact timeout_not_before. Qed.
+(* ... and EXACTLY at the deadline: in a history without loop lag and without user operations on the
+   request's timer every reported removal carries the time registration + timeout, and once the clock is
+   past that instant the removal has been reported, unless the user removed the request. *)
+Theorem C18_timeout_exact : forall evs tk t0 tau, nowrap evs -> forallb (untouched_ev tk) evs = true ->
+  In (OSent tk t0 tau) (log (run init evs)) -> tau <> 0 ->
+  (forall t, In (ORemoved tk t) (log (run init evs)) -> t = t0 + Z.max tau 0) /\
+  (t0 + Z.max tau 0 < now (run init evs) ->
+     In (ORemoved tk (t0 + Z.max tau 0)) (log (run init evs)) \/ In (ORemoveOk tk) (log (run init evs))).
+Proof. exact timeout_exact. Qed.
+Example C18_timeout_exact_nonvacuous :
+  let evs := [Search 5; Search 0; Step 0%nat; Advance 5; Step 0%nat; DoneCb 0%nat; Advance 3] in
+  nowrap evs /\ forallb (untouched_ev 2) evs = true /\ In (OSent 2 0 5) (log (run init evs)) /\
+  now (run init evs) = 8 /\ In (ORemoved 2 5) (log (run init evs)).
+Proof. exact timeout_exact_nonvacuous. Qed.
 
-(* Manual removal.  Full statement (no further result, no removal event, NO LATER ERROR) is false: F22 *)
-Theorem C18_removed_silent_refuted : exists evs e tk o, nowrap (evs ++ [e]) /\ In (ORemoveOk tk) (log (run init evs)) /\
-  In o (new_obs (run init evs) e) /\ fires_for tk o = true.
-Proof. exact removed_silent_refuted. Qed.
-(* what holds: no further result event and no removal event, ever *)
-Theorem C18_removed_silent_partial : forall evs e tk, nowrap (evs ++ [e]) -> In (ORemoveOk tk) (log (run init evs)) ->
-  forall o, In o (new_obs (run init evs) e) -> result_for tk o = false /\ removed_ev_for tk o = false.
-Proof. exact removed_silent_partial. Qed.
-(* and requests without a timeout never produce a timer event or error *)
+(* Manual removal (FULL): after remove_request returned, no step ever produces a result event, a removal
+   event or a timer error for that request; no exception escapes a timer task at all; the request's timer
+   is cancelled (no task of it can wake up) until the user re-arms it himself. *)
+Theorem C18_removed_silent : forall evs e tk, nowrap (evs ++ [e]) -> In (ORemoveOk tk) (log (run init evs)) ->
+  forall o, In o (new_obs (run init evs) e) -> result_for tk o = false /\ fires_for tk o = false.
+Proof. exact removed_silent_full. Qed.
+Theorem C18_no_task_errors : forall s e o tk t, In o (new_obs s e) -> o <> OErrKey tk t.
+Proof. exact no_task_errors. Qed.
+Theorem C18_remove_cancels_timer : forall evs1 evs2 tk,
+  nowrap (evs1 ++ Remove tk :: evs2) -> no_resched tk evs2 -> memz tk (requests (run init evs1)) = true ->
+  forall i, (i < ntasks (run init (evs1 ++ Remove tk :: evs2)))%nat ->
+    owner (tasks (run init (evs1 ++ Remove tk :: evs2)) i) = tk -> status (tasks (run init (evs1 ++ Remove tk :: evs2)) i) <> Pend false.
+Proof. exact remove_cancels_timer. Qed.
 Theorem C18_removed_silent_no_timer : forall evs e tk t0, nowrap (evs ++ [e]) -> In (OSent tk t0 0) (log (run init evs)) ->
   forall o, In o (new_obs (run init evs) e) -> fires_for tk o = false.
 Proof. exact removed_silent_no_timer. Qed.
 
-(* cancel(): after it, nothing fires for the request - FALSE in general (F23) ... *)
-Theorem C18_cancel_effective_refuted : exists evs1 evs2 e tk t0 tau o,
-  nowrap (evs1 ++ Cancel tk :: evs2 ++ [e]) /\ no_resched tk evs2 /\
-  In (OSent tk t0 tau) (log (run init evs1)) /\
-  In o (new_obs (run init (evs1 ++ Cancel tk :: evs2)) e) /\ fires_for tk o = true.
-Proof. exact cancel_effective_refuted. Qed.
-(* ... true when the timer was never re-armed (before or after) *)
-Theorem C18_cancel_effective_partial : forall evs1 evs2 e tk t0 tau,
-  nowrap (evs1 ++ Cancel tk :: evs2 ++ [e]) -> no_resched tk (evs1 ++ Cancel tk :: evs2) ->
+(* cancel() (FULL): whatever happened before - including any number of re-arms - after cancel() nothing
+   fires for the request until the user re-arms the timer *)
+Theorem C18_cancel_effective : forall evs1 evs2 e tk t0 tau,
+  nowrap (evs1 ++ Cancel tk :: evs2 ++ [e]) -> no_resched tk evs2 ->
   In (OSent tk t0 tau) (log (run init evs1)) ->
   forall o, In o (new_obs (run init (evs1 ++ Cancel tk :: evs2)) e) -> fires_for tk o = false.
-Proof. exact cancel_effective_partial. Qed.
+Proof. exact cancel_effective. Qed.
 
-(* re-arming: the superseded deadline must not fire - FALSE for a second re-arm (F23): the request is
-   removed at time 4 although it was re-armed at time 0 for 9 seconds ... *)
-Theorem C18_superseded_never_fires_refuted : exists evs e tk t1 tau' o,
-  nowrap (evs ++ [e]) /\ last evs (Lag 0) = Resched tk (Some tau') /\ t1 = now (run init evs) /\
-  In o (new_obs (run init (evs ++ [Advance 4])) e) /\ fires_for tk o = true /\
-  now (run init (evs ++ [Advance 4])) < t1 + tau'.
-Proof. exact superseded_fires_refuted. Qed.
-(* ... true for the first re-arm: afterwards the timer only fires once the NEW deadline is reached *)
-Theorem C18_superseded_partial : forall evs1 evs2 e tk tau t0 tau0,
-  nowrap (evs1 ++ Resched tk tau :: evs2 ++ [e]) -> no_resched tk evs1 -> no_resched tk evs2 ->
+(* re-arming (FULL): after ANY reschedule - until the next one - the timer fires only once the NEW
+   deadline is reached: a superseded deadline never fires *)
+Theorem C18_superseded_never_fires : forall evs1 evs2 e tk tau t0 tau0,
+  nowrap (evs1 ++ Resched tk tau :: evs2 ++ [e]) -> no_resched tk evs2 ->
   In (OSent tk t0 tau0) (log (run init evs1)) ->
   forall o, In o (new_obs (run init (evs1 ++ Resched tk tau :: evs2)) e) -> fires_for tk o = true ->
   now (run init evs1) + Z.max (match tau with Some t => t | None => tmo (run init evs1) tk end) 0
     <= now (run init (evs1 ++ Resched tk tau :: evs2)).
-Proof. exact superseded_partial. Qed.
+Proof. exact superseded_never_fires. Qed.
 
-(* non-vacuity: a history meeting the premises in which the timer does fire, exactly at its deadline *)
+(* non-vacuity *)
 Example C18_nonvacuous :
   let evs := [Search 5; Search 0; Reply 2 1; Reply 7 2; Advance 5] in
   nowrap (evs ++ [Step 0%nat]) /\ no_resched 2 evs /\
@@ -96,8 +99,15 @@ Example C18_nonvacuous :
   live_in_log 2 (log (run init evs)) = true /\ live_in_log 2 (log (run init (evs ++ [Step 0%nat]))) = false.
 Proof. unfold nowrap, MAXT. vm_compute. repeat split; try reflexivity; discriminate. Qed.
 
+(* the former F23 history: re-arm, let the old task finish, cancel: nothing fires any more *)
 Example C18_cancel_nonvacuous :
-  let evs1 := [Search 5] in let evs2 := [Step 0%nat; DoneCb 0%nat; Advance 9] in
-  nowrap (evs1 ++ Cancel 2 :: evs2 ++ [Step 0%nat]) /\ no_resched 2 (evs1 ++ Cancel 2 :: evs2) /\
-  In (OSent 2 0 5) (log (run init evs1)) /\ now (run init (evs1 ++ Cancel 2 :: evs2)) = 9.
+  let evs1 := [Search 3; Resched 2 (Some 4); Step 0%nat; DoneCb 0%nat] in let evs2 := [Step 1%nat; DoneCb 1%nat; Advance 9] in
+  nowrap (evs1 ++ Cancel 2 :: evs2 ++ [Step 1%nat]) /\ no_resched 2 evs2 /\
+  In (OSent 2 0 3) (log (run init evs1)) /\ now (run init (evs1 ++ Cancel 2 :: evs2)) = 9 /\
+  log (run init (evs1 ++ Cancel 2 :: evs2 ++ [Step 1%nat])) = [OSent 2 0 3].
 Proof. unfold nowrap, MAXT. vm_compute. repeat split; try reflexivity; try discriminate. left. reflexivity. Qed.
+
+(* the former F22 history: remove, wait beyond the deadline: silence *)
+Example C18_removed_nonvacuous :
+  log (run init [Search 5; Remove 2; Step 0%nat; DoneCb 0%nat; Advance 50; Step 0%nat; Reply 2 1]) = [ORemoveOk 2; OSent 2 0 5].
+Proof. vm_compute. reflexivity. Qed.
